@@ -290,6 +290,14 @@ class MassMatrixAdaptor(Adaptor):
             "samples": self.variance_estimator.samples,
         }
         state_dict.update(state_dict_estimator)
+        if self._variance_window != 0:
+            state_dict["values"] = [value.tolist() for value in self._values]
+        if self.variance_estimator2 is not None:
+            state_dict["estimator2"] = {
+                "mean": self.variance_estimator2._mean.tolist(),
+                "variance": self.variance_estimator2._variance.tolist(),
+                "samples": self.variance_estimator2.samples,
+            }
         return state_dict
 
     def load_state_dict(self, state_dict: dict[str, Any]) -> None:
@@ -301,6 +309,17 @@ class MassMatrixAdaptor(Adaptor):
         }
         self.variance_estimator._mean = torch.tensor(state_dict["mean"], **info)
         self.variance_estimator._variance = torch.tensor(state_dict["variance"], **info)
+        if "values" in state_dict:
+            self._values = deque(
+                torch.tensor(value, **info) for value in state_dict["values"]
+            )
+        if self.variance_estimator2 is not None and "estimator2" in state_dict:
+            estimator2 = state_dict["estimator2"]
+            self.variance_estimator2.samples = estimator2["samples"]
+            self.variance_estimator2._mean = torch.tensor(estimator2["mean"], **info)
+            self.variance_estimator2._variance = torch.tensor(
+                estimator2["variance"], **info
+            )
 
     @classmethod
     def from_json(cls, data, dic):
